@@ -55,6 +55,11 @@ def candidates(g, rng, n_sub=3):
             break
     P = c.random_point(rng)
     out.append(("offcurve", (P[0], f.norm(f.add(P[1], f.one)))))
+    # an order-r point of an isomorphic twist: (l^2 x, l^3 y) of a subgroup point (off the curve, but [r] kills it)
+    S = subgroup_pt = G.subgroup_point(g, rng)
+    lam = f.small(2)
+    l2 = f.mul(lam, lam)
+    out.append(("twist-order-r", (f.norm(f.mul(S[0], l2)), f.norm(f.mul(S[1], f.mul(l2, lam))))))
     return out
 
 
